@@ -89,7 +89,41 @@ def table(tier, seed, **opts):
     return r
 
 
-FUNCS = {'table': table}
+def check_sequence(rnd):
+    """render, change the set of series through every dict entry point, render again: each rendering must be the table of the
+    series stored at that moment"""
+    h = TimeSeriesHolder('k')
+    h['b'] = [1.0, 2.0]
+    h['t'] = [0.0, 1.0]
+    ops = [lambda: h.update({'a': [5.0, 6.0]}), lambda: h.setdefault('iteration', [0.0, 1.0]), lambda: h.pop('b'),
+           lambda: h.__setitem__('zz', [7.0, 8.0]), lambda: h.__delitem__('t'), lambda: h.AppendValue('k', 3.0), lambda: h.AppendValue('k', 4.0),
+           lambda: h.update(k2=[1.0, 1.0])]
+    rnd.shuffle(ops)
+    bad = check_table(h, '%.5g')
+    for op in ops:
+        if bad:
+            return bad
+        op()
+        bad = check_table(h, '%.5g')
+        if bad:
+            return 'after a change of the stored series: ' + bad
+    return None
+
+
+def sequences(tier, seed, **opts):
+    r = Result('sequences render / mutate (update, setdefault, pop, del, item assignment, AppendValue) / render on one holder, 30 (quick) / 500 '
+               '(thorough) random orders; every rendering checked against the series stored at that moment; all cases non-trivial')
+    rnd = random.Random(seed)
+    for i in range(30 if tier == 'quick' else 500):
+        bad = check_sequence(rnd)
+        r.case(('seq', i), True, sample={'order': i} if i < 1 else None)
+        if bad:
+            r.fail('sequence', {'seed': seed, 'index': i}, bad)
+            break
+    return r
+
+
+FUNCS = {'table': table, 'sequences': sequences}
 
 
 def replay(payload):
@@ -101,6 +135,10 @@ def replay(payload):
         bad = check_table(h, inp['format'])
         return {'reproduced': bool(bad), 'detail': bad, 'input': inp}
     # refuted obligation: search the enumerated neighbourhood for a natively failing holder
+    r = sequences('quick', 0)
+    if r.failures:
+        return {'reproduced': True, 'detail': r.failures[0]['detail'], 'input': r.failures[0]['input'],
+                'note': 'failing call sequence found by the bounded search, not decoded from the counter-model'}
     r = table('quick', 0)
     if r.failures:
         return {'reproduced': True, 'detail': r.failures[0]['detail'], 'input': r.failures[0]['input'],
